@@ -224,9 +224,24 @@ fn parse_args(raw: &str) -> Value {
 }
 
 /// (calls, response id seen, cleanly delivered)
+/// Whether a scripted drop leaves the response complete from the engine's point of view: the
+/// cut lies at or beyond the end of the body, or beyond the terminal marker (the engine stops
+/// reading there).
+fn drop_is_harmless(events: &[SseEv], interleave: bool, done: &DoneMode, crlf: bool, d: usize) -> bool {
+    let (bytes, _) = esim::render_sse(events, interleave, done, crlf);
+    if d >= bytes.len() {
+        return true;
+    }
+    let marker: &[u8] = if crlf { b"data: [DONE]\r\n\r\n" } else { b"data: [DONE]\n\n" };
+    match bytes.windows(marker.len()).position(|w| w == marker) {
+        Some(p) => d >= p + marker.len(),
+        None => false,
+    }
+}
+
 pub fn model_response(r: &Resp) -> (Vec<ModelCall>, Option<String>, bool) {
     match r {
-        Resp::Sse { events, drop_after: None, .. } => {
+        Resp::Sse { events, drop_after, interleave, done, crlf, .. } if drop_after.map(|d| drop_is_harmless(events, *interleave, done, *crlf, d as usize)).unwrap_or(true) => {
             let mut calls = Vec::new();
             let mut rid = None;
             for e in events {
@@ -339,9 +354,11 @@ pub fn execute(sc: &Scenario, env: &Env) -> (Outcome, RunStats) {
         }
         engine.settle(5);
         let reqs_all = engine.requests();
-        let mut reqs: Vec<&esim::Recorded> = reqs_all.iter().filter(|r| r.index >= req_cursor).collect();
+        // runs are sequential: everything the stub recorded since the previous run ended belongs
+        // to this run (connection indices need not be contiguous — a connection the client opens
+        // and abandons consumes an index without a request)
+        let mut reqs: Vec<&esim::Recorded> = reqs_all.iter().skip(req_cursor).collect();
         reqs.sort_by_key(|r| r.index);
-        let first_index = req_cursor;
         req_cursor += reqs.len();
         let s = truth.stream("session", &sid);
         let reason = s.iter().find(|f| f.ty == "session_ended").and_then(|f| f.s("reason")).unwrap_or("?").to_string();
@@ -410,7 +427,8 @@ pub fn execute(sc: &Scenario, env: &Env) -> (Outcome, RunStats) {
         let mut cum = 0usize;
         let mut rid_known = false;
         for (i, _r) in reqs.iter().enumerate() {
-            let script_idx = (first_index + i).min(sc.script.len() - 1);
+            // the script entry the stub actually served for this request
+            let script_idx = reqs[i].index.min(sc.script.len() - 1);
             let (calls, rid, clean) = model_response(&sc.script[script_idx]);
             if rid.is_some() {
                 rid_known = true;
